@@ -104,9 +104,9 @@ fn encode(fc: Fc, v: u64) -> (u64, u64) {
     }
 }
 
-fn encoding_known_row(r_type: u32) -> bool {
-    // R_RISCV_64 is declared as a 4-byte field.
-    matches!(r_type, R_RISCV_64)
+fn encoding_known_row(_r_type: u32) -> bool {
+    // (R_RISCV_64 used to be declared as a 4-byte field: repaired in 8e5aeb1, now part of the main harness.)
+    false
 }
 
 fn range_known_row(r_type: u32) -> bool {
